@@ -43,14 +43,41 @@ class C01(Prop):
             "databases; non-trivial = the module has a top-level import or the tool adds one; distinct by full case")
     trusted_base = ["CPython `ast` for the character ranges of top-level import statements (oracle)"]
     assumptions = ["input read as text (CRLF already normalised by Python's text mode)",
-                   "the tools are driven through the FileText path, as bin/tidy-imports does"]
+                   "in-process calls take the text as PythonBlock, FileText or str; the command-line route runs "
+                   "bin/<tool> --replace on a file on disk in a UTF-8 locale"]
 
     def exhaustive_cases(self, tier, rng):
         # real-world corpus: stdlib / site-packages modules through reformat and tidy
-        return R.file_corpus_cases(700 if tier == "thorough" else 12, rng)
+        cases = R.file_corpus_cases(700 if tier == "thorough" else 12, rng)
+        # the command-line route on files on disk (read_file / write_file / --replace), in UTF-8 and in a declared
+        # 8-bit encoding, with non-ASCII text outside the imports and an import block that changes
+        for j in range(240 if tier == "thorough" else 12):
+            c = R.gen_rewriter_case(rng, tool=rng.choice(["reformat", "tidy", "reformat", "replace_star", "remove_broken"]))
+            body = c["text"]
+            extra = "s_enc = '\u00e9 \u00fc'  # \u00f1\n"
+            head = "import sys, os\n" if rng.random() < 0.8 else ""
+            enc = rng.choice(["utf-8", "latin-1", "latin-1", "iso-8859-15"])
+            cookie = "" if enc == "utf-8" else rng.choice(["# -*- coding: %s -*-\n", "#!/usr/bin/python\n# vim: set fileencoding=%s :\n"]) % enc
+            if body.startswith("from __future__"):
+                head = ""
+            text = cookie + head + body + ("" if body.endswith("\n") or not body else "\n") + (extra if rng.random() < 0.8 else extra[:-1])
+            try:
+                text.encode(enc)
+                compile(text if text.endswith("\n") else text + "\n", "<cli>", "exec", dont_inherit=True)
+            except (UnicodeEncodeError, SyntaxError, ValueError):
+                continue
+            c.update(text=text, entry="cli", encoding=enc)
+            cases.append(c)
+        return cases
 
     def gen_case(self, rng, i, tier):
-        return R.gen_rewriter_case(rng)
+        c = R.gen_rewriter_case(rng)
+        r = rng.random()
+        if r < 0.12:
+            c["entry"] = "filetext"
+        elif r < 0.24:
+            c["entry"] = "str"
+        return c
 
     def run_impl(self, case):
         obs = {}
@@ -59,7 +86,7 @@ class C01(Prop):
         except Exception as e:
             obs["err"] = type(e).__name__
             obs["errmsg"] = str(e)[:200]
-        if case["tool"] in ("reformat", "tidy"):
+        if case["tool"] in ("reformat", "tidy") and case.get("entry") != "cli":
             obs["trace"] = R.block_trace(case)
         return obs
 
@@ -136,6 +163,8 @@ class C01(Prop):
 
     def stats(self, case, obs, acc):
         acc["tool_" + case["tool"]] = acc.get("tool_" + case["tool"], 0) + 1
+        e = "entry_" + case.get("entry", "block") + ("_" + case["encoding"] if case.get("encoding") else "")
+        acc[e] = acc.get(e, 0) + 1
         if "err" in obs:
             acc["raised_" + obs["err"]] = acc.get("raised_" + obs["err"], 0) + 1
         elif obs["out"] != case["text"]:
